@@ -86,12 +86,13 @@ SplitHeader(bin) == IF Len(bin) < 5 \/ SubSeq(bin, 1, 5) # Bec2Sig THEN HErr("si
 \* ---------------------------------------------------------------- reader
 RErr(e) == [ok |-> FALSE, err |-> e, key |-> <<>>, blocks |-> <<>>, comps |-> <<>>]
 RECURSIVE UnpackAll(_, _, _, _, _, _)
-UnpackAll(bs, ecckeys, decs, j, key, acc) ==     \* key = common session key so far (<<>> = none)
+NoKey == <<256>>        \* "no block has yielded a key yet" (an EMPTY key, unwrapped from a crafted empty payload, is a key for the library)
+UnpackAll(bs, ecckeys, decs, j, key, acc) ==     \* key = common session key so far (NoKey = none)
     IF j > Len(bs) THEN [ok |-> TRUE, err |-> "", key |-> key, blocks |-> acc]
     ELSE LET r == UnpackBlock([tag |-> bs[j].tag, raw |-> bs[j].raw, ecckey |-> ecckeys[j]], decs) IN
          IF r.kind = "unknown" THEN UnpackAll(bs, ecckeys, decs, j + 1, key, Append(acc, r.blk))
          ELSE IF r.kind # "ok" THEN [ok |-> FALSE, err |-> r.kind, key |-> <<>>, blocks |-> <<>>]
-         ELSE IF key # <<>> /\ r.key # key THEN [ok |-> FALSE, err |-> "session-keys-differ", key |-> <<>>, blocks |-> <<>>]
+         ELSE IF key # NoKey /\ r.key # key THEN [ok |-> FALSE, err |-> "session-keys-differ", key |-> <<>>, blocks |-> <<>>]
          ELSE UnpackAll(bs, ecckeys, decs, j + 1, r.key, Append(acc, r.blk))
 \* the auth_blocks attribute is a dict keyed by tag: a later block with the same tag replaces the earlier one in place
 RECURSIVE DictByTag(_, _, _)
@@ -104,10 +105,17 @@ ReadBec2(bin, ecckeys, decs, check) ==
     LET h == SplitHeader(bin) IN
     IF ~h.ok THEN RErr(h.err)
     ELSE IF Len(ecckeys) # Len(h.blocks) THEN RErr("oracle-keys-misaligned")
-    ELSE LET u == UnpackAll(h.blocks, ecckeys, decs, 1, <<>>, <<>>) IN
+    ELSE LET u == UnpackAll(h.blocks, ecckeys, decs, 1, NoKey, <<>>) IN
          IF ~u.ok THEN RErr(u.err)
-         ELSE IF u.key = <<>> THEN RErr("no-decryptable-block")
-         ELSE IF Len(u.key) # 16 THEN RErr("session-key-length")
+         ELSE IF u.key = NoKey THEN RErr("no-decryptable-block")
+         \* a block crafted by a key holder around fewer than 16 bytes yields a short "key": refused as soon as the key is USED
+         \* (MAC checking, an encrypted component); with MAC checking off and plain components only it is never used
+         ELSE IF Len(u.key) # 16 /\ check THEN RErr("session-key-length")
+         ELSE IF Len(u.key) # 16 THEN
+              LET p == L!Parse(bin, h.off, [j \in 1..16 |-> 0], FALSE) IN
+              IF ~p.ok THEN RErr(p.err)
+              ELSE IF \E j \in 1..Len(p.comps) : p.comps[j].enc THEN RErr("session-key-length")
+              ELSE [ok |-> TRUE, err |-> "", key |-> u.key, blocks |-> DictByTag(u.blocks, 1, <<>>), comps |-> p.comps]
          ELSE LET p == L!Parse(bin, h.off, u.key, check) IN
               IF ~p.ok THEN RErr(p.err)
               ELSE [ok |-> TRUE, err |-> "", key |-> u.key, blocks |-> DictByTag(u.blocks, 1, <<>>), comps |-> p.comps]
